@@ -172,13 +172,20 @@ func (s c01Spec) ops(w *model.World) (out []opx) {
 	// layout has them)
 	if hi, ok := lastRow(w); ok && hi != r0 {
 		if k.Mergeable {
-			// merge, a write elsewhere, then an overwrite of the merged row
-			o := txnOp(w, []model.Act{{Op: "put", Off: r0, W: []model.Write{s.write(deltas[0], true)}}, {Op: "put", Off: hi, W: []model.Write{s.write(v0, false)}},
-				{Op: "put", Off: r0, W: []model.Write{s.write(v1, false)}}}, false)
-			if !k.Numeric && hi/16384 != r0/16384 {
-				o.tag = "variable-length merge; write in another block; overwrite of the merged row, one transaction"
+			// every order of {merge row r0, overwrite row r0, write the far row} in one
+			// transaction: the buffer then holds one, two or three sections for r0's block
+			acts := []model.Act{
+				{Op: "put", Off: r0, W: []model.Write{s.write(deltas[0], true)}},
+				{Op: "put", Off: r0, W: []model.Write{s.write(v1, false)}},
+				{Op: "put", Off: hi, W: []model.Write{s.write(v0, false)}},
 			}
-			out = append(out, o)
+			for _, perm := range [][3]int{{0, 1, 2}, {0, 2, 1}, {1, 0, 2}, {1, 2, 0}, {2, 0, 1}, {2, 1, 0}} {
+				o := txnOp(w, []model.Act{acts[perm[0]], acts[perm[1]], acts[perm[2]]}, false)
+				if !k.Numeric && hi/16384 != r0/16384 && perm == [3]int{0, 2, 1} {
+					o.tag = "variable-length merge; write in another block; overwrite of the merged row, one transaction"
+				}
+				out = append(out, o)
+			}
 		}
 		out = append(out, txnOp(w, []model.Act{{Op: "put", Off: hi, W: []model.Write{s.write(v0, false)}}, {Op: "put", Off: r0, W: []model.Write{s.write(v1, false)}}}, false))
 		out = append(out, txnOp(w, []model.Act{{Op: "put", Off: r0, W: []model.Write{s.write(v0, false)}}, {Op: "put", Off: hi, W: []model.Write{s.write(v1, false)}}}, false))
